@@ -234,6 +234,7 @@ impl StateRestorer {
                     }
                 }
                 EventPayload::WorkerLost(worker_id, reason) => {
+                    self.max_worker_id = self.max_worker_id.max(worker_id.as_num());
                     if reason.is_failure() {
                         for job in self.jobs.values_mut() {
                             job.increase_crash_counters(worker_id);
@@ -275,6 +276,10 @@ impl StateRestorer {
                     rv_id,
                 } => {
                     log::debug!("Replaying: TaskStarted {task_id} {instance_id} {worker_ids:?}");
+                    // A pruned journal may name workers whose connection records are gone
+                    for worker_id in &worker_ids {
+                        self.max_worker_id = self.max_worker_id.max(worker_id.as_num());
+                    }
                     if let Some(job) = self.jobs.get_mut(&task_id.job_id()) {
                         // Keep the crash counter if the task has been already started before
                         let crash_counter = job
